@@ -142,6 +142,47 @@ def check(facts, rep, tier, cfg):
                         ok = True
             (rep.ok if ok else rep.bad)("C02.R4", "poll_write-count", where, "returns buf.len() of the slice sent" if ok else "poll_write's returned count is not the length of the slice that was put into the frame")
         else:
+            # path-wise pairing: in every iteration over the caller's slices, a slice is counted iff it is put into the frame's slice list
+            from an import Explorer as _Ex4
+            pushes_ = [bi for bi, t in b.calls() if callee(t) and callee(t)["name"] == "push" and "Vec" in callee(t)["def"]]
+            nexts_ = [bi for bi, t in b.calls() if callee(t) and callee(t)["name"] == "next" and "Iterator" in callee(t).get("trait", callee(t)["path"])]
+            if pushes_ and nexts_:
+                unbalanced = []
+
+                def _is_len_add(st):
+                    if st["k"] != "Assign" or st["rv"]["k"] != "BinaryOp" or not str(st["rv"].get("op", "")).startswith("Add"):
+                        return False
+                    v = tr.rvalue(st["rv"])
+                    return any(x.kind == "call" and x[6] == "len" for x in walk(v))
+
+                def on_stmt4(bb, idx, st, auto):
+                    if auto is not None and _is_len_add(st):
+                        return (min(auto[0] + 1, 2), auto[1])
+                    return auto
+
+                def on_term4(bb, t, auto, store):
+                    if t["k"] != "Call":
+                        return auto
+                    c = callee(t)
+                    if not c:
+                        return auto
+                    if bb in pushes_ and auto is not None:
+                        return (auto[0], min(auto[1] + 1, 2))
+                    if bb in nexts_ or c["name"] == "new_push_vectored":
+                        if auto is not None and auto[0] != auto[1]:
+                            unbalanced.append(bb)
+                        return (0, 0)
+                    return auto
+                ex4 = _Ex4(facts, b, on_stmt=on_stmt4, on_term=on_term4)
+                ex4.run(0, None)
+                rep.paths += len(ex4.seen)
+                if unbalanced:
+                    rep.bad("C02.R4", "vectored-count-pairs-with-frame", "%s (%s)" % (loc_str(b.term(unbalanced[0])["loc"]), b.path),
+                            "on some path through the loop over the caller's slices a slice is added to the returned count without being put "
+                            "into the frame (or the reverse): the caller is told bytes were written that never reach the peer (a "
+                            "write-all loop skips them), or bytes are sent twice")
+                else:
+                    rep.ok("C02.R4", "vectored-count-pairs-with-frame", where, "every counted slice is framed on every path")
             ok = False
             pushes = [t for _, t in b.calls() if callee(t) and callee(t)["name"] == "push" and "Vec" in callee(t)["def"]]
             for r in rets:
